@@ -1282,7 +1282,7 @@ class C13(Check):
     impl = "harness.c13:impl"
     uses_extract = True
     case_timeout = 20.0
-    budget = {"quick": 2500, "thorough": 40000}
+    budget = {"quick": 5000, "thorough": 40000}
     search_budget = {"quick": 1500, "thorough": 8000}
     rule = ("random declarations: data classes (1-5 fields over the Field parameter product: alias, alias_from, required "
             "bool/mode-string, default/default_factory, defer_default, no_input/no_output bool/mode-string, mode/readonly/"
@@ -1291,9 +1291,9 @@ class C13(Check):
             "unions/oneOf/allOf, nested data classes (depth<=2) x generator mode {none,r,w,a} x {input,output} view "
             "(+ the $defs mode for 30%), each with <=10 raw inputs (valid, re-spelled, damaged); plus arbitrary "
             "schema/instance pairs over the whole vocabulary for the Lean-validator vs jsonschema cross-check. "
-            "non-trivial = the declaration has a constraint, container, combinator, nested class or a non-default field/"
-            "option setting AND at least one input was parsed and published (or it is a pairs case); distinct by the "
-            "full case")
+            "non-trivial = the declaration is not a bare builtin class / Any (i.e. it is a data class, constrained type, "
+            "container, enum or combinator) AND at least one input was parsed and published (or it is a pairs case); "
+            "distinct by the full case (declaration + mode + inputs)")
     assumptions = [
         "regular expressions are an oracle (Python re answers, supplied per case); the theorems assume RxLaws "
         "(fullmatch implies search, '.*' and the integer key pattern match) which the run audits on every string used",
